@@ -15,6 +15,7 @@ import (
 	"sync"
 
 	"github.com/pdfcpu/pdfcpu/pkg/api"
+	"github.com/pdfcpu/pdfcpu/pkg/pdfcpu/model"
 	"verif/harness/lib/h"
 )
 
@@ -305,6 +306,14 @@ func normOp(o []fieldOp) []fieldOp {
 	return o
 }
 
+// fconf: every third call uses the default configuration, the others write classic xref tables without object streams.
+func fconf(n int) *model.Configuration {
+	if n%3 == 0 {
+		return nil
+	}
+	return plainConf()
+}
+
 func formRun(dir string, idx int, defs []fieldDef, c formCase, put func(formRecord)) error {
 	cj := filepath.Join(dir, "create.json")
 	if err := os.WriteFile(cj, createJSON(defs, c.Init), 0644); err != nil {
@@ -317,7 +326,7 @@ func formRun(dir string, idx int, defs []fieldDef, c formCase, put func(formReco
 		asked[i] = fieldOp{Present: true, Val: s.Val, Lock: s.Locked}
 	}
 	rec := formRecord{Case: idx, Step: 0, Kind: "create", Focus: c.Focus, Op: normOp(asked), Pre: normStates(append([]fieldState(nil), c.Init...)), Result: "ok"}
-	if err := api.CreateFile("", cj, cur, nil); err != nil {
+	if err := api.CreateFile("", cj, cur, fconf(idx)); err != nil {
 		return fmt.Errorf("form creation failed: %w", err)
 	}
 	ex := filepath.Join(dir, "e0.json")
@@ -356,7 +365,7 @@ func formRun(dir string, idx int, defs []fieldDef, c formCase, put func(formReco
 		next := filepath.Join(dir, fmt.Sprintf("f%d.pdf", k+1))
 		os.Remove(next)
 		r := formRecord{Case: idx, Step: k + 1, Kind: "fill", OpKind: op.Kind, Focus: c.Focus, Op: normOp(op.Fields), Pre: normStates(st)}
-		r.Result = fillResult(api.FillFormFile(cur, fj, next, nil))
+		r.Result = fillResult(api.FillFormFile(cur, fj, next, fconf(idx+k+1)))
 		if r.Result == "ok" {
 			cur = next
 		} else if _, e := os.Stat(next); e == nil {
